@@ -80,7 +80,7 @@ func checkC18(c *Ctx) {
 		"statement and expression node a line: the statement dispatcher, the import loop, the basic-expression dispatcher and each operator level call setStmtCurrentLine on the node on every path to its return; (C18.lines) the three scanners that consume line breaks " +
 		"(lexer line loop, multi-line string literals, multi-line comments) register exactly one line per physical break, CRLF and LFCR counting as one, with the line starting right after the break (step tables extracted by constant propagation); " +
 		"(C18.chain) call frames are popped on every non-error exit and cut back before a handler runs, so a reported chain contains only active calls; (C18.module) each chain entry's native-module test and source line use that entry's own module; " +
-		"(C18.syntax) a syntax error's line number and quoted line are computed from the same cursor. Also: no PopCallFrame in the evaluator is deferred or placed on a branch where an error is known (the chain is rendered after the failing functions returned). NOT decided: the caret column arithmetic (East-Asian widths), that FindLineIdx maps a cursor to the right line for all inputs (run-time arithmetic over the registered lines)."
+		"(C18.syntax) a syntax error's line number and quoted line are computed from the same cursor. Also: no PopCallFrame in the evaluator is deferred or placed on a branch where an error is known (the chain is rendered after the failing functions returned). A statement's line is searched from line 0; the functions that place the column marker never slice or index the line as a Go string. NOT decided: the caret column arithmetic (East-Asian widths), that FindLineIdx maps a cursor to the right line for all inputs (run-time arithmetic over the registered lines)."
 	R.Assumptions = []string{"Lexer.FindLineIdx returns the last line whose StartIdx <= cursor (baseline tests)", "runtime.CallFrame.SetCurrentLine stores the line"}
 	u := c.Core()
 	u.buildSSA()
@@ -277,18 +277,24 @@ func checkC18(c *Ctx) {
 	// ---- C18.module
 	if f := u.ssaFunc("pkg/exec", "RuntimeErrorWrapper.Error"); f != nil {
 		n, ok := 0, true
-		for _, gp := range u.callsNamed(f, "pkg/runtime.Module.GetProgram") {
-			if !loopBlock(gp.Block()) {
+		// the renderer or the helpers it is split into
+		for _, fh := range family(f, 1) {
+			if fh.Pkg != f.Pkg {
 				continue
 			}
-			n++
-			// receiver = GetModule() of the loop's own frame
-			okR := false
-			if cv, isC := gp.Common().Args[0].(*ssa.Call); isC && u.callName(cv) == "pkg/runtime.CallFrame.GetModule" && loopBlock(cv.Block()) {
-				okR = true
-			}
-			if !okR {
-				ok = false
+			for _, gp := range u.callsNamed(fh, "pkg/runtime.Module.GetProgram") {
+				if !loopBlock(gp.Block()) {
+					continue
+				}
+				n++
+				// receiver = GetModule() of the loop's own frame
+				okR := false
+				if cv, isC := gp.Common().Args[0].(*ssa.Call); isC && u.callName(cv) == "pkg/runtime.CallFrame.GetModule" && loopBlock(cv.Block()) {
+					okR = true
+				}
+				if !okR {
+					ok = false
+				}
 			}
 		}
 		R.check(ok && n >= 1, "C18.module", "pkg/exec.RuntimeErrorWrapper.Error:chain-entries", u.pos(f.Pos()), "each chain entry is classified by its own module", "a chain entry is classified (native or not) by another frame's module")
@@ -366,22 +372,41 @@ func checkLineBookkeeping(c *Ctx, u *Universe) {
 			continue
 		}
 		pos := u.pos(fd.Pos())
-		// the scanning loop: the innermost for-loop whose body switches on the character
-		var body *ast.BlockStmt
-		ast.Inspect(fd.Body, func(n ast.Node) bool {
-			if fs, ok := n.(*ast.ForStmt); ok {
-				has := false
-				for _, st := range fs.Body.List {
-					if _, ok := st.(*ast.SwitchStmt); ok {
-						has = true
+		// the scanning loop: the innermost for-loop whose body switches on the character, in the scanner itself or in
+		// a helper of the package it hands the scanning to
+		scanLoop := func(d *ast.FuncDecl) *ast.BlockStmt {
+			var body *ast.BlockStmt
+			ast.Inspect(d.Body, func(n ast.Node) bool {
+				if fs, ok := n.(*ast.ForStmt); ok {
+					has := false
+					for _, st := range fs.Body.List {
+						if _, ok := st.(*ast.SwitchStmt); ok {
+							has = true
+						}
+					}
+					if has {
+						body = fs.Body
 					}
 				}
-				if has {
-					body = fs.Body
+				return true
+			})
+			return body
+		}
+		body := scanLoop(fd)
+		if body == nil {
+			ast.Inspect(fd.Body, func(n ast.Node) bool {
+				if call, ok := n.(*ast.CallExpr); ok && body == nil {
+					if f := calleeFunc(info, call); f != nil && f.Pkg() == p.Types {
+						if g, _ := u.funcDecl("pkg/syntax/zh", f.Name()); g != nil && g != fd {
+							if b2 := scanLoop(g); b2 != nil {
+								fd, body = g, b2
+							}
+						}
+					}
 				}
-			}
-			return true
-		})
+				return true
+			})
+		}
 		if body == nil {
 			R.undecided("C18.lines", "pkg/syntax/zh."+name, pos, "scanning loop not found")
 			continue
@@ -405,8 +430,24 @@ func checkLineBookkeeping(c *Ctx, u *Universe) {
 				}
 			}
 		}
-		if ks := constAssignedVars(info, fd, func(c types.Object) bool { return strings.HasPrefix(c.Name(), "commentType") }); len(ks) == 1 {
-			kindObj = ks[0]
+		// comment kind = the one variable the loop body compares with the commentType… constants
+		kinds := map[types.Object]bool{}
+		ast.Inspect(body, func(n ast.Node) bool {
+			if be, ok := n.(*ast.BinaryExpr); ok && (be.Op == token.EQL || be.Op == token.NEQ) {
+				for _, pr := range [][2]ast.Expr{{be.X, be.Y}, {be.Y, be.X}} {
+					if k, isK := identObj(info, pr[1]).(*types.Const); isK && strings.HasPrefix(k.Name(), "commentType") {
+						if v, isV := identObj(info, pr[0]).(*types.Var); isV {
+							kinds[v] = true
+						}
+					}
+				}
+			}
+			return true
+		})
+		if len(kinds) == 1 {
+			for k := range kinds {
+				kindObj = k
+			}
 		}
 		type preset map[types.Object]int64
 		var variants []preset
